@@ -432,4 +432,23 @@ def extended_search(ctx):
     pipeprop.run(ctx, "C05", FOCUS, oracle, 2000, 2000, ctx.rule, nontrivial=lambda c, r: False)
 
 
-replay = pipeprop.generic_replay("C05", oracle)
+def _replay_oracle(ctx, case, res, real):
+    oracle(ctx, case, res, real)
+    argv = case["argv"]
+    filt = next((f for f in ("--discard-untrimmed", "--discard-trimmed") if f in argv), "untrimmed-output" if "--untrimmed-output" in argv else None)
+    if filt and "-a" in argv and "-A" in argv and "--pair-adapters" not in argv:
+        base, skip = [], 0
+        for t in argv:
+            if skip:
+                skip -= 1
+            elif t in ("--discard-untrimmed", "--discard-trimmed"):
+                pass
+            elif t in ("--untrimmed-output", "--untrimmed-paired-output", "--pair-filter"):
+                skip = 1
+            else:
+                base.append(t)
+        mode = argv[argv.index("--pair-filter") + 1] if "--pair-filter" in argv else "any"
+        trimmed_filter_oracle(ctx, dict(case, tf=dict(base=base, filt=filt, mode=mode)), real)
+
+
+replay = pipeprop.generic_replay("C05", _replay_oracle)
